@@ -96,6 +96,7 @@ fn run_cache_sequence(seq: &[COp]) -> (Option<(&'static str, String)>, bool) {
     (None, nontrivial)
 }
 fn judge_cache(seq: &[COp], a: &mut Acc, exhaustive: bool) {
+    tick();
     let (viol, nt) = match std::panic::catch_unwind(|| run_cache_sequence(seq)) {
         Ok(r) => r,
         Err(_) => {
@@ -321,6 +322,7 @@ pub fn dominance_concurrent(seed: u64, threads: usize, ops: usize, use_value: bo
 }
 
 pub fn concurrent_round(rng: &mut Rng, a: &mut Acc, small: bool) {
+    tick();
     let threads = if small { 3 } else { *rng.pick(&[2usize, 3, 4, 8, 16]) };
     let ops = if small { 40 } else { 50 + rng.usize(250) };
     let seed = rng.next() >> 8;
@@ -390,7 +392,7 @@ pub fn run(shard: &Shard) -> i32 {
     // only the concurrent part (used by the TSan / Miri add-ons)
     let conc_only = std::env::var("VH_C18_CONCURRENT_ONLY").is_ok();
     let small = std::env::var("VH_SMALL").is_ok();
-    if !conc_only {
+    if !conc_only && shard.only_case.is_none() {
         // (a) exhaustive cache sequences, sharded by the first operation
         let alpha = cache_alphabet();
         let maxlen = if shard.quick() { 4 } else { 5 };
